@@ -55,7 +55,7 @@ def predicate(case):
     a, b = space["breaks"][0], space["breaks"][-1]
     n = basis.nbasis
     exact = ref.integrals()
-    stored = np.asarray(basis.integrals, dtype=float)
+    stored = np.array(basis.integrals, dtype=float, copy=True)
     scale = (b - a)
     # ---- stored basis integrals ---------------------------------------------------------------
     if stored.shape != exact.shape:
@@ -101,6 +101,18 @@ def predicate(case):
         dx = (b - a) / n
         if np.abs(w - dx).max() > tol_w:
             raise Violation("C09:%s:uniform-periodic-weights" % tag, "weights %s are not all dx=%r" % (w, dx))
+    # ---- asking again (same interpolator, and another one sharing the space) changes nothing -------
+    with crash_is_violation("C09:weights", "get_quadrature_coefficients (repeated)"):
+        w2 = np.asarray(interp.get_quadrature_coefficients(), dtype=float)
+        w3 = np.asarray(SplineInterpolator1D(basis).get_quadrature_coefficients(), dtype=float)
+        w4 = np.asarray(interp.get_quadrature_coefficients(), dtype=float)
+    for name, ww in (("second request", w2), ("second interpolator on the same space", w3), ("third request", w4)):
+        if ww.shape != w.shape or np.abs(ww - w).max() > tol_w:
+            raise Violation("C09:%s:weights-not-repeatable" % tag, "%s: weights differ from the first request by %.3e (sum %r, domain length %r)"
+                            % (name, np.abs(ww - w).max() if ww.shape == w.shape else np.nan, ww.sum(), b - a))
+    if not np.array_equal(np.asarray(basis.integrals, dtype=float), stored):
+        raise Violation("C09:%s:integrals-modified" % tag, "basis.integrals changed after the quadrature weights were requested (max change %.3e)"
+                        % np.abs(np.asarray(basis.integrals, dtype=float) - stored).max())
     # ---- w . u equals the exact integral of the interpolant -------------------------------------
     got = float(w @ data)
     want = float(cref[:len(exact)] @ exact)
